@@ -16,8 +16,12 @@ Each disposition below was decided by reading the code (notes/C09.md records the
   * `_warn_once_cache`: `Ambient.warnCache`; decides only whether a warning is printed.
   * `defined_refs`, `already_promoted`, `skip`, `others`, `kinds`, `params`: sets that are only added to and
     queried with `in` / `len`; `kinds.pop()` follows `len(kinds) == 1`.
-  * `Context.dtype_index.find_dtype_index`: ORDER-SENSITIVE iteration over a set of expression keys — the
-    model does not account for it; it is a listed finding (text differs across PYTHONHASHSEED).
+  * `Context.dtype_index.find_dtype_index` iterates `same_dtype_cache[key]`.  Until /repo commit 05234cd that was a
+    SET of expression keys (order-sensitive, hash-seed dependent: the text of the lax target differed across
+    PYTHONHASHSEED) and the entry was audited as `listedFinding`; since 05234cd the peers are kept in an insertion-ordered
+    dict, the census no longer reports the site, and no audited entry is a `listedFinding` (theorem `no_listed_findings`).
+    The search keeps the regression clauses (fav/props/c09.py: probe_dtype_index, the apmath/lax requests, the
+    structural clause on the dtype index).
 -/
 import FAVerif.Models.CensusTypes
 
@@ -28,9 +32,7 @@ def audited : List Audited := [
   ⟨⟨.moduleMutable, "algorithms.py", "definition", "_registry = {...}", 0⟩, .registry⟩,
   ⟨⟨.stateMutation, "algorithms.py", "definition.__init__", "self._registry[domain] = {}", 0⟩, .registry⟩,
   ⟨⟨.setCreate, "context.py", "Context.__init__", "self.parameters['using'] = set(...)", 0⟩, .perInstance⟩,
-  ⟨⟨.setCreate, "context.py", "Context._assume_same_dtype", "others = cache[a.key] = set(...)", 0⟩, .membershipOnly⟩,
   ⟨⟨.setCreate, "context.py", "Context.dtype_index", "dtype_index = find_dtype_index(x.key, set())", 0⟩, .membershipOnly⟩,
-  ⟨⟨.setIter, "context.py", "Context.dtype_index.find_dtype_index", "for y_key in same_dtype_cache.get(x_key, []):", 0⟩, .listedFinding⟩,
   ⟨⟨.namespaceIter, "context.py", "Context.__call__", "for (name, obj) in frame.f_locals.items():", 0⟩, .frameLocals⟩,
   ⟨⟨.namespaceIter, "context.py", "Context.__call__", "frame = sys._getframe(1)", 0⟩, .frameLocals⟩,
   ⟨⟨.mutableDefault, "context.py", "Context.__init__", "def __init__(... paths=[] ...)", 0⟩, .readOnlyDefault⟩,
